@@ -669,6 +669,19 @@ class DefaultCodec(Codec):
                         from_parent=True,
                     )
 
+            if isinstance(obj, DefaultCodec.PicklePartition):
+                # A partition that was read from storage and is stored again (e.g. handed on by
+                # another function) carries what it inherited from its own parents in its index,
+                # not in a merge parent: keep those entries.
+                # noinspection PyProtectedMember
+                for k, v in obj._index.items():
+                    if v.from_parent:
+                        # noinspection PyProtectedMember
+                        data_source.reference(
+                            obj._data_source, v.content_key, v.content_key
+                        )
+                        index[k] = v
+
             # Layer current keys on top of parent's keys
             output_keys = dict()
             keys = obj.list_keys(_include_merge_parent=False)
